@@ -117,17 +117,25 @@ theorem lock_changes_only_by (st : State) (op : Op) :
       | ok st' => exact bind_locked st st' k v h
   | bindAt k v loc =>
     simp only [step]
-    cases h : st.bind k v (some loc) with
+    cases hr : st.resolveAbbrev v with
     | error e => rfl
-    | ok st' => exact bind_locked' st st' k v _ h
+    | ok v' =>
+      simp only
+      cases h : st.bind k v' (some loc) with
+      | error e => rfl
+      | ok st' => exact bind_locked' st st' k v' _ h
   | bindBlockAt k v loc =>
     simp only [step]
-    split
-    · rfl
-    · rfl
-    · cases h : st.bind k v (some loc) with
-      | error e => rfl
-      | ok st' => exact bind_locked' st st' k v _ h
+    cases hr : st.resolveAbbrev v with
+    | error e => rfl
+    | ok v' =>
+      simp only
+      split
+      · rfl
+      · rfl
+      · cases h : st.bind k v' (some loc) with
+        | error e => rfl
+        | ok st' => exact bind_locked' st st' k v' _ h
   | query k => simp only [step]; split <;> rfl
   | call sel enter args kwargs =>
     simp only [step]
